@@ -79,6 +79,8 @@ type Report struct {
 	Stdout     string      `json:"stdout"`
 	Stderr     string      `json:"stderr"`
 	WallMs     int64       `json:"wall_ms"`
+	SigintAtMs int64       `json:"sigint_at_ms"` // when sx was interrupted (-1: never)
+	KilledBy   string      `json:"killed_by,omitempty"`
 }
 
 func ip(args ...string) error {
@@ -370,11 +372,19 @@ func main() {
 	}
 	waited := make(chan error, 1)
 	go func() { waited <- cmd.Wait() }()
+	var sigOnce sync.Once
+	sigAt := int64(-1)
+	interrupt := func() {
+		sigOnce.Do(func() {
+			atomic.StoreInt64(&sigAt, time.Since(t0).Milliseconds())
+			cmd.Process.Signal(syscall.SIGINT)
+		})
+	}
 	if sc.SigintMs > 0 {
-		time.AfterFunc(time.Duration(sc.SigintMs)*time.Millisecond, func() { cmd.Process.Signal(syscall.SIGINT) })
+		time.AfterFunc(time.Duration(sc.SigintMs)*time.Millisecond, interrupt)
 	}
 	mu.Lock()
-	onCount = func() { cmd.Process.Signal(syscall.SIGINT) }
+	onCount = interrupt
 	mu.Unlock()
 	tmo := time.Duration(sc.TimeoutS) * time.Second
 	if tmo == 0 {
@@ -384,6 +394,9 @@ func main() {
 	case err := <-waited:
 		if ee, ok := err.(*exec.ExitError); ok {
 			rep.Exit = ee.ExitCode()
+			if ws, ok := ee.Sys().(syscall.WaitStatus); ok && ws.Signaled() {
+				rep.KilledBy = ws.Signal().String()
+			}
 		} else if err != nil {
 			rep.Exit = -1
 		}
@@ -393,6 +406,7 @@ func main() {
 		rep.TimedOut, rep.Exit = true, -9
 	}
 	rep.WallMs = time.Since(t0).Milliseconds()
+	rep.SigintAtMs = atomic.LoadInt64(&sigAt)
 	// drain: every capture loop must have found its socket empty at least twice after sx exited (bounded by 5 s)
 	base := map[string]int64{}
 	for n, c := range idle {
